@@ -487,7 +487,8 @@ pub fn random_recipe(r: &mut Rng, family: Family, size: usize) -> Recipe {
             1 => GOp::Iden,
             2 => GOp::Witness,
             3 => GOp::Fail(r.byte()),
-            4 => GOp::Word(r.below(8) as u8, r.next_u64()),
+            // mostly up to 128 bits; one in eight is a 256..1024-bit constant (hashes, keys)
+            4 => GOp::Word(if r.chance(1, 8) { r.range(8, 10) as u8 } else { r.below(8) as u8 }, r.next_u64()),
             5 => GOp::Jet(r.usize_below(njets)),
             6 => GOp::JetApplied(r.usize_below(njets)),
             7 => GOp::InjL,
